@@ -30,8 +30,15 @@ GEOMS = {
 }
 
 
-def build(it, geom, lamform='uniform', yform='none', extra=None):
+def build(it, geom, lamform='uniform', yform='none', extra=None, sfx=''):
     g = GEOMS[geom]
+    _r, _i = pysym.real, pysym.integer
+
+    def real(n):
+        return _r(n + sfx)
+
+    def integer(n):
+        return _i(n + sfx)
     th = [real('th0'), real('th1')]
     mat = tuple(real(x) for x in MAT)
     kw = dict(a=real('a'), b=real('b'), stack=th, mu=real('mu'), m=integer('m'), n=integer('n'), offset=real('d'))
@@ -60,7 +67,9 @@ def build(it, geom, lamform='uniform', yform='none', extra=None):
     if extra:
         kw.update(extra)
     p = panelctx.new_panel(it, **kw)
-    panelctx.symbolic_flags(p)
+    panelctx.symbolic_flags(p, sfx)
+    if sfx:
+        p.name = 'panel' + sfx
     want = {'a': kw['a'], 'b': kw['b'], 'm': kw['m'], 'n': kw['n'], 'mu': kw['mu'],
             'r': kw.get('r', P.const(0)), 'alpharad': shims.sym_deg2rad(kw['alphadeg']) if 'alphadeg' in kw else P.const(0),
             'lam.ABD': panelctx.LamMatrix(Opaque('ABDspec', stack=th, plyts=plyts, laminaprops=props, offset=kw['offset']), 6),
